@@ -142,6 +142,7 @@ func (p *OutPort) Open(proc *process.Process) *packet.Writer {
 		return packet.ClosedWriter
 	}
 
+	verifYield(11)
 	p.mu.RLock()
 	writer, ok := p.writers[proc]
 	p.mu.RUnlock()
@@ -169,6 +170,7 @@ func (p *OutPort) Open(proc *process.Process) *packet.Writer {
 	openHooks.Open(proc)
 	go listeners.Accept(proc)
 
+	verifYield(12)
 	proc.AddExitHook(process.ExitFunc(func(_ error) {
 		p.mu.Lock()
 		delete(p.writers, proc)
